@@ -8,6 +8,6 @@ if [ "$(git rev-parse HEAD)" != "$head" ]; then
   git diff -- . ':(exclude)*_test.go' > /tmp/mut/$id.srcpatch
   git stash -q -u && git checkout -q --detach $head && git stash pop -q || { echo "REBASE FAILED"; exit 3; }
 fi
-cd /verif && VERIF_REPO=$wt timeout 3000 ./check $id --tier $tier > /tmp/main/mut/check-$id.log 2>&1
+cd /verif && VERIF_HARNESS_CMD=dev_$(echo $id | tr A-Z a-z) VERIF_REPO=$wt timeout 3000 ./check $id --tier $tier > /tmp/main/mut/check-$id.log 2>&1
 echo "exit=$?" >> /tmp/main/mut/check-$id.log
 grep -v "^WARNING conda\|^KNOWN-FINDING" /tmp/main/mut/check-$id.log | tail -4
